@@ -78,7 +78,9 @@ def families(thorough):
     s = []
     progs = [['Ps', 'S', 'Ps2', 'S', 'Bs', 'E', 'S', 'Bs2', 'E', 'S'], ['Ps', 'S', 'Cs', 'S', 'Ps1b', 'Bs', 'E', 'S'], ['Ps', 'Bs', 'E', 'S', 'Ps1b', 'Bs', 'E', 'S'],
              ['Ps', 'Ps2', 'S', 'Bs2', 'E', 'Bs', 'E', 'S'], ['Ps', 'S', 'select', 'Bs', 'E', 'S', 'select2', 'Bs', 'E', 'S'], ['Ps', 'S', 'Ps2', 'S', 'Ps', 'S', 'Bs', 'E', 'S', 'Bs2', 'E', 'S'],
-             ['begin', 'Ps', 'Bs', 'E', 'S', 'commit', 'Bs', 'E', 'S'], ['Ps', 'Ds', 'S', 'Bs', 'E', 'S'], ['Ps2', 'S', 'Ps', 'S', 'Cs2', 'S', 'Bs', 'E', 'S']]
+             ['begin', 'Ps', 'Bs', 'E', 'S', 'commit', 'Bs', 'E', 'S'], ['Ps', 'Ds', 'S', 'Bs', 'E', 'S'], ['Ps2', 'S', 'Ps', 'S', 'Cs2', 'S', 'Bs', 'E', 'S'],
+             # Close and re-Parse of the same name inside ONE batch; use then Close in one batch
+             ['Ps', 'S', 'Cs', 'Ps1b', 'Bs', 'E', 'S'], ['Ps', 'Bs', 'E', 'Cs', 'S', 'Ps1b', 'Bs', 'E', 'S'], ['Ps', 'S', 'Bs', 'E', 'Cs', 'Ps1b', 'Bs', 'E', 'S']]
     for t in progs:
         for cache in (1, 2, 4):
             s.append(Case(t, stop='X', cache=cache))
